@@ -34,6 +34,10 @@ def run(ctx):
     from skepticoin.humans import computer
     n = 0
     distinct = 0
+    # the schedule dimension first (workers are forked; their seams - memoised real scrypt, lowered horizon - stay in them)
+    if not os.environ.get('VERIF_C18_NO_THREADS'):
+        from .. import thrscen
+        ctx.cov['thread_schedules'] = thrscen.run(ctx, 'C18', 1 if ctx.quick else 2)
     # (re-)establish the unpatched horizon: replay runs in the same process after the last part lowered it
     consensus.MAX_KNOWN_HASH_HEIGHT = cheating.MAX_KNOWN_HASH_HEIGHT
     consensus.KNOWN_HASHES = cheating.KNOWN_HASHES
@@ -401,6 +405,9 @@ def cands_flip(b):
 
 
 def replay(data, ctx):
+    if isinstance(data, dict) and 'thread_scenario' in data:
+        from .. import thrscen
+        return thrscen.replay(data)
     c2 = type(ctx)(ctx.pid, ctx.tier, ctx.seed)
     run(c2)
     return [(k, v['what']) for k, v in c2.violations.items()]
